@@ -111,9 +111,28 @@ def run(rep, facts, tier):
               'a reader proxy can enter the pending set without qos().is_reliable() being true', c.where())
     # is_reliable must be evaluated on the proxy the closure was given (the map value), not anything else
     # empty set => try_send on the completion channel
-    empt = [(sbb, tg) for sbb, tg, cond, lab in switch_edges(pw, fx, og)
-            if lab is True and term_has(cond, lambda x: x[0] == 'call' and x[1].endswith('is_empty') and
-                                        term_has(x, lambda y: y[0] == 'call' and y[1].endswith('::collect')))]
+    def _emptiness(cond, lab):
+        """True: this edge is taken when the collected pending set is empty, False: when it is not, None: not such a test (negations and `== false` read through)"""
+        neg = False
+        c = cond
+        while True:
+            if c[0] == 'un' and c[1] == 'Not':
+                neg, c = not neg, c[2]
+            elif c[0] == 'bin' and c[1] in ('Eq', 'Ne') and any(x[0] == 'const' and x[1] in ('bool', 'int') for x in c[2:4]):
+                k = [x for x in c[2:4] if x[0] == 'const'][0]
+                other = [x for x in c[2:4] if x is not k][0]
+                kv = str(k[2]) in ('1', 'true', 'True')
+                if (c[1] == 'Eq') != kv:
+                    neg = not neg
+                c = other
+            else:
+                break
+        if c[0] == 'call' and c[1].endswith('is_empty') and term_has(c, lambda y: y[0] == 'call' and y[1].endswith('::collect')) and isinstance(lab, bool):
+            return lab != neg
+        return None
+    all_edges_pw = list(switch_edges(pw, fx, og))
+    empt = [(sbb, tg) for sbb, tg, cond, lab in all_edges_pw if _emptiness(cond, lab) is True]
+    nonempt = [(sbb, tg) for sbb, tg, cond, lab in all_edges_pw if _emptiness(cond, lab) is False]
     sends = [(bb, 'term') for bb, t in pw.calls() if call_matches(t, 'StatusChannelSender::try_send')]
     aw_aggs = [(bb, si, st) for bb, si, st in pw.statements() if st['s'] == 'assign' and st['rv']['r'] == 'agg' and
                strip_generics(st['rv'].get('adt', '')).endswith('AckWaiter')]
@@ -127,6 +146,18 @@ def run(rep, facts, tier):
                     ok = False
     rep.check(ok, 'R20.2', 'process_writer_command/empty-completes', 'empty pending set => completion sent',
               'with an empty pending set the completion is not sent on every path (the waiter would time out / hang)', pw.where())
+    # the other direction is the property itself: while a reader is pending, nothing is signalled and the waiter is kept
+    okn = bool(nonempt) and bool(aw_aggs)
+    for sbb, tg in nonempt:
+        nextcmd = [(bb, 'term') for bb, t in pw.calls() if callee_res(t).endswith(('try_recv', '::recv', '::next'))]
+        if not nextcmd or any(P.can_reach((tg, 0), s_, avoid_pos=nextcmd) for s_ in sends):
+            okn = False         # a completion signal before the next command is fetched
+        for goal in [(r, 'term') for r in pw.return_blocks()]:
+            if P.can_reach((tg, 0), goal, avoid_pos=[(bb, si) for bb, si, st in aw_aggs]):
+                okn = False
+    rep.check(okn, 'R20.2', 'process_writer_command/pending-waits', 'non-empty pending set => no completion signal, an AckWaiter holding the set is stored',
+              'with readers still pending the completion is signalled at once, or no AckWaiter is kept: wait_for_acknowledgments reports success without the acknowledgments '
+              '(or never completes)', pw.where())
     ok = False
     for bb, si, st in aw_aggs:
         idx = st['rv']['fields'].index('wait_until')
